@@ -9,7 +9,8 @@ VERIF = progs.VERIF
 BASE = os.path.join(VERIF, 'build', 'neg')
 
 HEADER = '''#![allow(dead_code, unused_imports, unused_variables, unused_must_use)]
-use scale_info::build::{FieldBuilder, Fields, VariantBuilder, Variants};
+use scale_info::build::{field_state, state, variant_state, FieldBuilder, Fields, TypeBuilder, VariantBuilder, Variants};
+use scale_info::form::MetaForm;
 use scale_info::form::PortableForm;
 use scale_info::{Path, Type, TypeInfo, TypeParameter, meta_type};
 '''
@@ -122,6 +123,75 @@ def programs(thorough):
             'pub fn f() { %s }\n' % (ctx % 'Fields::<PortableForm>::unit().field_portable(|f| f.ty(0u32))'),
             'pub fn f() { %s }\n' % (ctx % 'Fields::<PortableForm>::unnamed().field_portable(|f| f.ty(0u32))'), 'E0599')
 
+    # ---- 6. a builder OBTAINED in a later state, or out of thin air, instead of through the transitions:
+    #      sources of a builder value = {closure argument (above), fresh constructor with / without explicit state,
+    #      Default::default() with inferred / explicit state} x sinks = {closure result, finalize, composite / variant}
+    for sub in vsubs:
+        calls = ''.join(vextra[k] for k in sub)
+        tag = '+'.join(sub) or 'bare'
+        add('no-index:fresh-in-closure:%s' % tag, 'typestate',
+            'pub fn f() { let _v = Variants::<MetaForm>::new().variant("A", |_| VariantBuilder::new("A")%s); }\n' % calls,
+            'pub fn f() { let _v = Variants::<MetaForm>::new().variant("A", |_| VariantBuilder::new("A").index(1)%s); }\n' % calls, 'E0308')
+        add('no-index:fresh-inferred-finalize:%s' % tag, 'typestate',
+            'pub fn f() { let _v: scale_info::Variant = VariantBuilder::new("A")%s.finalize(); }\n' % calls,
+            'pub fn f() { let _v: scale_info::Variant = VariantBuilder::new("A").index(1)%s.finalize(); }\n' % calls, 'E0599')
+        add('no-index:fresh-hole-finalize:%s' % tag, 'typestate',
+            'pub fn f() { let _v = VariantBuilder::<MetaForm, _>::new("A")%s.finalize(); }\n' % calls,
+            'pub fn f() { let _v = VariantBuilder::<MetaForm, _>::new("A").index(1)%s.finalize(); }\n' % calls, 'E0599')
+        add('no-index:explicit-state:%s' % tag, 'typestate',
+            'pub fn f() { let _v = VariantBuilder::<MetaForm, variant_state::IndexAssigned>::new("A")%s.finalize(); }\n' % calls,
+            'pub fn f() { let _v = VariantBuilder::<MetaForm, variant_state::IndexNotAssigned>::new("A").index(1)%s.finalize(); }\n' % calls, 'E0599')
+    add('no-index:default-in-closure', 'typestate',
+        'pub fn f() { let _v = Variants::<MetaForm>::new().variant("A", |_| Default::default()); }\n',
+        'pub fn f() { let _v = Variants::<MetaForm>::new().variant("A", |v| v.index(0)); }\n', 'E0277')
+    add('no-index:default-explicit-state', 'typestate',
+        'pub fn f() { let _v = <VariantBuilder<MetaForm, variant_state::IndexAssigned> as Default>::default().finalize(); }\n',
+        'pub fn f() { let _v = VariantBuilder::<MetaForm>::new("A").index(0).finalize(); }\n', 'E0277')
+    add('no-index:portable:fresh-in-closure', 'typestate',
+        'pub fn f() { let _v = Variants::<PortableForm>::new().variant("A".to_string(), |_| VariantBuilder::new("A".to_string())); }\n',
+        'pub fn f() { let _v = Variants::<PortableForm>::new().variant("A".to_string(), |_| VariantBuilder::new("A".to_string()).index(1)); }\n', 'E0308')
+    for form, F, pre, fu, path in (('meta', 'MetaForm', pre_meta, 'Fields::unit()', '.path(Path::new("T", "m"))'),
+                                   ('portable', 'PortableForm', pre_port, 'Fields::<PortableForm>::unit()', '.path(Path::from_segments_unchecked(["T".to_string()]))')):
+        for sub in [[]] + [[k] for k in pre]:
+            calls = ''.join(pre[k] for k in sub)
+            tag = '+'.join(sub) or 'bare'
+            for term, tcall in (('composite', '.composite(%s)' % fu), ('variant', '.variant(Variants::<%s>::new())' % F)):
+                add('no-path:default-explicit-state:%s:%s:%s' % (form, tag, term), 'typestate',
+                    'pub fn f() { let _t = TypeBuilder::<%s, state::PathAssigned>::default()%s%s; }\n' % (F, calls, tcall),
+                    'pub fn f() { let _t = TypeBuilder::<%s, state::PathNotAssigned>::default()%s%s%s; }\n' % (F, path, calls, tcall), 'E0599')
+                add('no-path:default-inferred:%s:%s:%s' % (form, tag, term), 'typestate',
+                    'pub fn f() { let _t: Type<%s> = TypeBuilder::<%s, _>::default()%s%s; }\n' % (F, F, calls, tcall),
+                    'pub fn f() { let _t: Type<%s> = TypeBuilder::<%s, _>::default()%s%s%s; }\n' % (F, F, path, calls, tcall), 'E0599')
+    for sub in fsubs:
+        calls = ''.join(fextra[k] for k in sub)
+        tag = '+'.join(sub) or 'bare'
+        for nstate, ncall in (('NameNotAssigned', ''), ('NameAssigned', '.name("a")')):
+            add('no-type:default-explicit-state:%s:%s' % (nstate, tag), 'typestate',
+                'pub fn f() { let _f = FieldBuilder::<MetaForm, field_state::%s, field_state::TypeAssigned>::default()%s.finalize(); }\n' % (nstate, calls),
+                'pub fn f() { let _f = FieldBuilder::<MetaForm, field_state::NameNotAssigned, field_state::TypeNotAssigned>::default()%s.ty::<u8>()%s.finalize(); }\n' % (ncall, calls), 'E0599')
+        add('no-type:default-inferred-finalize:%s' % tag, 'typestate',
+            'pub fn f() { let _f = FieldBuilder::<MetaForm, _, _>::default()%s.finalize(); }\n' % calls,
+            'pub fn f() { let _f = FieldBuilder::<MetaForm, _, _>::default().ty::<u8>()%s.finalize(); }\n' % calls, 'E0599')
+    for cname, ctx in contexts:
+        for kindf, namecall in (('unnamed', ''), ('named', '.name("a")')):
+            for src, twin_src in (('Default::default()', 'FieldBuilder::<MetaForm>::default()'), ('FieldBuilder::default()', 'FieldBuilder::<MetaForm>::default()'),
+                                  ('FieldBuilder::<MetaForm, _, _>::default()', 'FieldBuilder::<MetaForm, _, _>::default()'), ('FieldBuilder::new()', 'FieldBuilder::<MetaForm>::new()'),
+                                  ('FieldBuilder::<MetaForm, field_state::%s, field_state::TypeAssigned>::default()' % ('NameAssigned' if namecall else 'NameNotAssigned'), 'FieldBuilder::<MetaForm>::default()')):
+                add('no-type:out-of-thin-air:%s:%s:%s' % (cname, kindf, hashlib.md5(src.encode()).hexdigest()[:4]), 'typestate',
+                    'pub fn f() { %s }\n' % (ctx % ('Fields::%s().field(|_| %s)' % (kindf, src))),
+                    'pub fn f() { %s }\n' % (ctx % ('Fields::%s().field(|_| %s%s.ty::<u8>())' % (kindf, twin_src, namecall))), 'E0277')
+        add('named-among-unnamed:out-of-thin-air:%s' % cname, 'typestate',
+            'pub fn f() { %s }\n' % (ctx % 'Fields::unnamed().field(|_| FieldBuilder::<MetaForm>::default().name("a").ty::<u8>())'),
+            'pub fn f() { %s }\n' % (ctx % 'Fields::unnamed().field(|_| FieldBuilder::<MetaForm>::default().ty::<u8>())'), 'E0308')
+        add('unnamed-among-named:out-of-thin-air:%s' % cname, 'typestate',
+            'pub fn f() { %s }\n' % (ctx % 'Fields::named().field(|_| FieldBuilder::<MetaForm>::default().ty::<u8>())'),
+            'pub fn f() { %s }\n' % (ctx % 'Fields::named().field(|_| FieldBuilder::<MetaForm>::default().name("a").ty::<u8>())'), 'E0308')
+    for cname, ctx in pctx:
+        for kindf, namecall in (('unnamed', ''), ('named', '.name("a".to_string())')):
+            add('portable:no-type:out-of-thin-air:%s:%s' % (cname, kindf), 'typestate',
+                'pub fn f() { %s }\n' % (ctx % ('Fields::<PortableForm>::%s().field_portable(|_| Default::default())' % kindf)),
+                'pub fn f() { %s }\n' % (ctx % ('Fields::<PortableForm>::%s().field_portable(|_| FieldBuilder::<PortableForm>::default()%s.ty(1u32))' % (kindf, namecall))), 'E0277')
+
     # ---- derive: unions
     for name, attrs, gen, body in (
             ('plain', '', '', 'a: u8, b: u32'), ('generic', '', '<T: Copy>', 'a: T, b: u32'), ('attr', '#[scale_info(capture_docs = "never")]\n', '', 'a: u8, b: u8'),
@@ -210,6 +280,15 @@ def programs(thorough):
         ("<T, U: TypeInfo + 'static>", 'a: core::marker::PhantomData<T>, b: U', '', "U: TypeInfo + 'static", 'T'),
         ("<T, U: TypeInfo + 'static, V: TypeInfo + 'static>", 'a: core::marker::PhantomData<T>, b: U, c: V', "U: TypeInfo + 'static", "U: TypeInfo + 'static, V: TypeInfo + 'static", 'T'),
         ("<T: TypeInfo + 'static, U, V: TypeInfo + 'static>", 'a: T, b: core::marker::PhantomData<U>, c: V', "T: TypeInfo + 'static", "T: TypeInfo + 'static, V: TypeInfo + 'static", 'U'),
+        # the item's OWN where clause already bounds the parameter that bounds(..) leaves out: what the type declares is
+        # not what the attribute was asked to list
+        ("<T, U> where T: TypeInfo + 'static", 'a: T, b: U', "U: TypeInfo + 'static", "T: TypeInfo + 'static, U: TypeInfo + 'static", None),
+        ("<T, U> where U: TypeInfo + 'static, T: TypeInfo + 'static", 'a: T, b: U', '', "T: TypeInfo + 'static, U: TypeInfo + 'static", None),
+        ("<T> where T: TypeInfo + 'static", 'a: core::marker::PhantomData<T>', '', "T: TypeInfo + 'static", None),
+        ("<T> where T: TypeInfo + 'static", 'a: Vec<T>', "Vec<T>: TypeInfo + 'static", "T: TypeInfo + 'static", None),
+        ("<T, U> where T: Clone", 'a: T, b: U', "U: TypeInfo + 'static", "T: TypeInfo + 'static, U: TypeInfo + 'static", None),
+        ("<T, U> where U: TypeInfo + 'static", 'a: core::marker::PhantomData<T>, b: U', '', "U: TypeInfo + 'static", 'T'),
+        ("<T: TypeInfo + 'static, U> where U: TypeInfo + 'static", 'a: T, b: U', "T: TypeInfo + 'static", "T: TypeInfo + 'static, U: TypeInfo + 'static", None),
     ]
     for i, (gen, body, bad_b, good_b, skip) in enumerate(cases):
         sk = (', skip_type_params(%s)' % skip) if skip else ''
